@@ -11,6 +11,10 @@ Lemma Forall2_map_both {A B C D} (P : C -> D -> Prop) (f : A -> C) (g : B -> D) 
   Forall2 (fun x y => P (f x) (g y)) l1 l2 -> Forall2 P (map f l1) (map g l2).
 Proof. intros H; induction H; simpl; constructor; auto. Qed.
 
+Lemma Forall2_map_l {A B C} (P : C -> B -> Prop) (f : A -> C) l1 l2 :
+  Forall2 (fun x y => P (f x) y) l1 l2 -> Forall2 P (map f l1) l2.
+Proof. intros H; induction H; simpl; constructor; auto. Qed.
+
 Lemma Forall2_weaken {A B} (P Q : A -> B -> Prop) l1 l2 :
   (forall x y, P x y -> Q x y) -> Forall2 P l1 l2 -> Forall2 Q l1 l2.
 Proof. intros HPQ H; induction H; constructor; auto. Qed.
@@ -481,3 +485,286 @@ Lemma lookup_drop {A} keep genes (row : list A) g :
 Proof.
   intros Hl Hk. rewrite !lookup_zassoc, drop_cols_combine by assumption. apply zassoc_filter. assumption.
 Qed.
+
+(* ------------------------------------------------------------------ *)
+(* the query preparation                                               *)
+
+Section Prepare.
+Variable R : Type.
+Variable lg : frac -> R.
+(* the ONLY assumption about log2(1 + .): it is a function of the value of the fraction *)
+Hypothesis lg_ext : forall a b, 0 < snd a -> 0 < snd b -> feq a b -> lg a = lg b.
+
+Notation log2cpm_row := (log2cpm_row R lg).
+Notation to_log2cpm := (to_log2cpm R lg).
+Notation prepare_query := (prepare_query R lg).
+Notation node_matrices := (node_matrices R).
+
+Lemma lg_Forall2 l1 l2 :
+  Forall (fun a => 0 < snd a) l1 -> Forall (fun a => 0 < snd a) l2 -> Forall2 feq l1 l2 ->
+  map lg l1 = map lg l2.
+Proof.
+  intros H1 H2 H. induction H as [|a b t1 t2 Hab Ht IH]; [reflexivity|].
+  inversion H1; subst. inversion H2; subst. simpl. f_equal; [apply lg_ext; assumption | apply IH; assumption].
+Qed.
+
+Lemma log2cpm_proportional a b r1 r2 :
+  0 < a -> 0 < b -> nonneg_row r1 -> proportional a b r1 r2 -> log2cpm_row r1 = log2cpm_row r2.
+Proof.
+  intros Ha Hb Hn Hp. unfold Normalize.log2cpm_row.
+  apply lg_Forall2; [apply cpm_row_dens | apply cpm_row_dens | apply (cpm_proportional a b); assumption].
+Qed.
+
+Lemma log2cpm_scale k row : 0 < k -> nonneg_row row -> log2cpm_row (map (Z.mul k) row) = log2cpm_row row.
+Proof.
+  intros Hk Hn. apply (log2cpm_proportional 1 k); [lia | assumption | | apply scale_proportional].
+  apply nonneg_scale; assumption.
+Qed.
+
+Lemma log2cpm_row_length row : length (log2cpm_row row) = length row.
+Proof. unfold Normalize.log2cpm_row. rewrite map_length. apply cpm_row_length. Qed.
+
+Lemma log2cpm_permute p row :
+  Permutation p (seq 0 (length row)) -> log2cpm_row (permute p row) = permute p (log2cpm_row row).
+Proof.
+  intros Hp. unfold Normalize.log2cpm_row, cpm_row, denom.
+  rewrite (rsum_perm _ _ (permute_perm p row Hp)). rewrite !permute_map. reflexivity.
+Qed.
+
+(* --- raw input = the normalised matrix declared normalised --- *)
+Lemma shape_check_map {A B} (f : list A -> list B) (genes : list Z) (d : list (list A)) :
+  (forall r, length (f r) = length r) ->
+  forallb (fun r => Nat.eqb (length r) (length genes)) (map f d) =
+  forallb (fun r => Nat.eqb (length r) (length genes)) d.
+Proof.
+  intros Hf. induction d as [|r t IH]; [reflexivity|]. simpl. rewrite Hf, IH. reflexivity.
+Qed.
+
+Lemma raw_equals_declared genes d lists :
+  has_negative d = false ->
+  prepare_query genes (DeclRaw d) lists = prepare_query genes (DeclNorm (map log2cpm_row d)) lists.
+Proof.
+  intros Hneg. unfold Normalize.prepare_query. rewrite Hneg.
+  destruct (marker_cache genes lists) as [am|e]; [|reflexivity]. cbn [bind].
+  rewrite !make_cbg_spec. rewrite (shape_check_map log2cpm_row) by apply log2cpm_row_length.
+  destruct (negb (forallb (fun r => Nat.eqb (length r) (length genes)) d)); [reflexivity|].
+  destruct (negb (znodup_b genes)); reflexivity.
+Qed.
+
+Lemma raw_negative genes d lists :
+  has_negative d = true ->
+  prepare_query genes (DeclRaw d) lists =
+  match marker_cache genes lists with Ok _ => Err ENegative | Err e => Err e end.
+Proof.
+  intros Hneg. unfold Normalize.prepare_query. rewrite Hneg.
+  destruct (marker_cache genes lists); reflexivity.
+Qed.
+
+(* --- complete description of prepare_query on a well-formed declared-normalised input --- *)
+Definition spec_matrix (genes : list Z) (d : list (list R)) (nm : list Z) : result (list (list R)) :=
+  if znodup_b nm then Ok (map (fun row => pick genes row nm) d) else Err EDupSelected.
+
+Lemma prepare_norm_spec genes d lists :
+  NoDup genes -> well_shaped genes d ->
+  prepare_query genes (DeclNorm d) lists =
+    if forallb (fun g => zmem g genes) (concat lists)
+    then res_all (map (spec_matrix genes d) lists)
+    else Err EUnknownGene.
+Proof.
+  intros Hn Hw. unfold Normalize.prepare_query. rewrite marker_cache_spec.
+  destruct (forallb (fun g => zmem g genes) (concat lists)) eqn:Eall; [|reflexivity].
+  cbn [bind]. rewrite (make_cbg_ok genes d Log2CPM Hn Hw). cbn [bind].
+  set (am := filter (fun g => zmem g (concat lists)) genes).
+  assert (Ham : incl am genes) by (intros x Hx; apply filter_In in Hx; tauto).
+  assert (Hnd : NoDup am) by (apply NoDup_filter; assumption).
+  rewrite downsample_spec by exact Hw. cbn [c_genes c_data c_norm].
+  apply znodup_b_spec in Hnd. rewrite Hnd. cbn [negb].
+  apply forallb_zmem_incl in Ham. rewrite Ham. apply forallb_zmem_incl in Ham. cbn [bind].
+  unfold Normalize.node_matrices. f_equal. apply map_ext_in. intros nm Hnm.
+  assert (Hw2 : well_shaped am (map (fun row => pick genes row am) d)).
+  { unfold well_shaped in *. rewrite Forall_forall in *. intros r Hr. apply in_map_iff in Hr.
+    destruct Hr as [row [Hrow Hin]]. subst r. apply pick_length; [apply Hw; assumption | assumption]. }
+  rewrite downsample_spec by exact Hw2. cbn [c_genes c_data c_norm].
+  unfold spec_matrix. destruct (znodup_b nm); cbn [negb]; [|reflexivity].
+  assert (Hsub : incl nm am).
+  { intros g Hg. apply filter_In. pose proof (in_concat_incl nm lists Hnm g Hg) as Hc. split.
+    - rewrite forallb_forall in Eall. apply zmem_in. apply Eall. assumption.
+    - apply zmem_in. assumption. }
+  apply forallb_zmem_incl in Hsub. rewrite Hsub. apply forallb_zmem_incl in Hsub. cbn [bind c_data].
+  f_equal. rewrite map_map. apply map_ext_in. intros row Hrow.
+  apply pick_pick; [|assumption|assumption].
+  unfold well_shaped in Hw. rewrite Forall_forall in Hw. apply Hw. assumption.
+Qed.
+
+(* --- two inputs that agree, by gene NAME, on the markers are prepared identically --- *)
+Lemma forallb_ext_in {A} (f g : A -> bool) l : (forall x, In x l -> f x = g x) -> forallb f l = forallb g l.
+Proof.
+  induction l as [|x t IH]; intros H; [reflexivity|]. simpl.
+  rewrite (H x (or_introl eq_refl)), IH; [reflexivity|]. intros y Hy. apply H. right. assumption.
+Qed.
+
+Lemma zmem_iff g l l' : (In g l <-> In g l') -> zmem g l = zmem g l'.
+Proof.
+  intros H. destruct (zmem g l) eqn:E1; destruct (zmem g l') eqn:E2; try reflexivity.
+  - apply zmem_in in E1. apply zmem_false in E2. tauto.
+  - apply zmem_false in E1. apply zmem_in in E2. tauto.
+Qed.
+
+Lemma prepare_agree genes genes' d d' lists :
+  NoDup genes -> NoDup genes' -> well_shaped genes d -> well_shaped genes' d' ->
+  (forall g, In g (concat lists) -> (In g genes <-> In g genes')) ->
+  Forall2 (fun row row' => forall g, In g (concat lists) -> lookup genes row g = lookup genes' row' g) d d' ->
+  prepare_query genes (DeclNorm d) lists = prepare_query genes' (DeclNorm d') lists.
+Proof.
+  intros Hn Hn' Hw Hw' Hin Hag. rewrite !prepare_norm_spec by assumption.
+  rewrite (forallb_ext_in (fun g => zmem g genes) (fun g => zmem g genes'))
+    by (intros g Hg; apply zmem_iff; apply Hin; assumption).
+  destruct (forallb (fun g => zmem g genes') (concat lists)); [|reflexivity].
+  f_equal. apply map_ext_in. intros nm Hnm. unfold spec_matrix.
+  destruct (znodup_b nm); [|reflexivity]. f_equal.
+  apply Forall2_map_eq. eapply Forall2_weaken; [|exact Hag].
+  intros row row' H. apply pick_ext. intros g Hg. apply H. apply (in_concat_incl nm lists Hnm). assumption.
+Qed.
+
+(* --- gene permutation --- *)
+Lemma perm_in_range p n j : Permutation p (seq 0 n) -> In j p -> (j < n)%nat.
+Proof. intros Hp Hj. apply (Permutation_in _ Hp) in Hj. apply in_seq in Hj. lia. Qed.
+
+Lemma gene_permutation_norm p genes d lists :
+  NoDup genes -> well_shaped genes d -> Permutation p (seq 0 (length genes)) ->
+  prepare_query (permute p genes) (DeclNorm (map (permute p) d)) lists = prepare_query genes (DeclNorm d) lists.
+Proof.
+  intros Hn Hw Hp.
+  pose proof (permute_perm p genes Hp) as Hpg.
+  apply prepare_agree.
+  - eapply Permutation_NoDup; [apply Permutation_sym; exact Hpg | exact Hn].
+  - exact Hn.
+  - unfold well_shaped in *. rewrite Forall_forall in *. intros r Hr. apply in_map_iff in Hr.
+    destruct Hr as [row [Hrow Hin]]. subst r. specialize (Hw row Hin).
+    rewrite (Permutation_length (permute_perm p row ltac:(rewrite Hw; exact Hp))).
+    rewrite (Permutation_length Hpg). assumption.
+  - exact Hw.
+  - intros g _. split; intros H; [eapply Permutation_in; [exact Hpg | exact H]
+                                 | eapply Permutation_in; [apply Permutation_sym; exact Hpg | exact H]].
+  - unfold well_shaped in Hw. rewrite Forall_forall in Hw.
+    apply Forall2_map_l.
+    apply Forall2_same. intros row Hrow g _. apply lookup_permute; [assumption | apply Hw; assumption | assumption].
+Qed.
+
+Lemma has_negative_permute p d :
+  Forall (fun row => Permutation p (seq 0 (length row))) d ->
+  has_negative (map (permute p) d) = has_negative d.
+Proof.
+  unfold has_negative. induction 1 as [|row t Hrow Ht IH]; [reflexivity|]. simpl. rewrite IH. f_equal.
+  apply existsb_perm. apply permute_perm. assumption.
+Qed.
+
+Lemma marker_cache_ok_perm genes genes' lists :
+  Permutation genes' genes ->
+  (exists am, marker_cache genes lists = Ok am) \/
+  (marker_cache genes lists = Err EUnknownGene /\ marker_cache genes' lists = Err EUnknownGene).
+Proof.
+  intros Hp. rewrite !marker_cache_spec.
+  rewrite (forallb_ext_in (fun g => zmem g genes') (fun g => zmem g genes))
+    by (intros g _; apply zmem_perm; assumption).
+  destruct (forallb (fun g => zmem g genes) (concat lists)); [left; eexists; reflexivity | right; split; reflexivity].
+Qed.
+
+Lemma gene_permutation p genes inp lists :
+  NoDup genes ->
+  match inp with DeclRaw d => well_shaped genes d | DeclNorm d => well_shaped genes d end ->
+  Permutation p (seq 0 (length genes)) ->
+  prepare_query (permute p genes)
+    (match inp with DeclRaw d => DeclRaw (map (permute p) d) | DeclNorm d => DeclNorm (map (permute p) d) end) lists
+  = prepare_query genes inp lists.
+Proof.
+  intros Hn Hw Hp. destruct inp as [d|d]; [|apply gene_permutation_norm; assumption].
+  assert (Hrows : Forall (fun row => Permutation p (seq 0 (length row))) d).
+  { unfold well_shaped in Hw. rewrite Forall_forall in *. intros row Hrow. rewrite (Hw row Hrow). exact Hp. }
+  destruct (has_negative d) eqn:Eneg.
+  - rewrite !raw_negative by (try rewrite has_negative_permute; assumption).
+    rewrite !marker_cache_spec.
+    rewrite (forallb_ext_in (fun g => zmem g (permute p genes)) (fun g => zmem g genes))
+      by (intros g _; apply zmem_perm; apply permute_perm; assumption).
+    destruct (forallb (fun g => zmem g genes) (concat lists)); reflexivity.
+  - rewrite !raw_equals_declared by (try rewrite has_negative_permute; assumption).
+    rewrite map_map.
+    rewrite (map_ext_in (fun x => log2cpm_row (permute p x)) (fun x => permute p (log2cpm_row x))).
+    + rewrite <- (map_map log2cpm_row (permute p)). apply gene_permutation_norm; [assumption| |assumption].
+      unfold well_shaped in *. rewrite Forall_forall in *. intros r Hr. apply in_map_iff in Hr.
+      destruct Hr as [row [Hrow Hin]]. subst r. rewrite log2cpm_row_length. apply Hw. assumption.
+    + intros row Hrow. apply log2cpm_permute. rewrite Forall_forall in Hrows. apply Hrows. assumption.
+Qed.
+
+(* --- extra genes (declared-normalised input) --- *)
+Lemma extra_genes_irrelevant keep genes d lists :
+  NoDup genes -> well_shaped genes d ->
+  (forall g, In g (concat lists) -> keep g = true) ->
+  prepare_query (filter keep genes) (DeclNorm (map (drop_cols keep genes) d)) lists =
+  prepare_query genes (DeclNorm d) lists.
+Proof.
+  intros Hn Hw Hk. apply prepare_agree.
+  - apply NoDup_filter. assumption.
+  - assumption.
+  - unfold well_shaped in *. rewrite Forall_forall in *. intros r Hr. apply in_map_iff in Hr.
+    destruct Hr as [row [Hrow Hin]]. subst r. apply drop_cols_length. apply Hw. assumption.
+  - assumption.
+  - intros g Hg. rewrite filter_In. specialize (Hk g Hg). tauto.
+  - unfold well_shaped in Hw. rewrite Forall_forall in Hw.
+    apply Forall2_map_l.
+    apply Forall2_same. intros row Hrow g Hg. apply lookup_drop; [apply Hw; assumption | apply Hk; assumption].
+Qed.
+
+(* --- scale invariance of the whole preparation --- *)
+Lemma has_negative_scale ks d :
+  Forall (fun k => 0 < k) ks -> length ks = length d -> has_negative (scale_rows ks d) = has_negative d.
+Proof.
+  intros Hks. revert d; induction Hks as [|k t Hk Ht IH]; intros d Hl; destruct d as [|row d]; try discriminate; [reflexivity|].
+  unfold scale_rows, has_negative in *. simpl. rewrite existsb_neg_scale by assumption. f_equal.
+  apply IH. simpl in Hl. lia.
+Qed.
+
+Lemma log2cpm_scale_rows ks d :
+  Forall (fun k => 0 < k) ks -> length ks = length d -> Forall nonneg_row d ->
+  map log2cpm_row (scale_rows ks d) = map log2cpm_row d.
+Proof.
+  intros Hks. revert d; induction Hks as [|k t Hk Ht IH]; intros d Hl Hn; destruct d as [|row d]; try discriminate; [reflexivity|].
+  inversion Hn; subst. unfold scale_rows in *. simpl. f_equal.
+  - apply log2cpm_scale; assumption.
+  - apply IH; [simpl in Hl; lia | assumption].
+Qed.
+
+Lemma scale_invariant ks genes d lists :
+  Forall (fun k => 0 < k) ks -> length ks = length d ->
+  prepare_query genes (DeclRaw (scale_rows ks d)) lists = prepare_query genes (DeclRaw d) lists.
+Proof.
+  intros Hks Hl. destruct (has_negative d) eqn:Eneg.
+  - rewrite !raw_negative by (try rewrite has_negative_scale; assumption). reflexivity.
+  - rewrite !raw_equals_declared by (try rewrite has_negative_scale; assumption).
+    rewrite log2cpm_scale_rows; [reflexivity | assumption | assumption |]. apply has_negative_false. assumption.
+Qed.
+
+(* --- rejections --- *)
+Lemma negative_raw_rejected genes d lists r :
+  has_negative d = true -> prepare_query genes (DeclRaw d) lists <> Ok r.
+Proof.
+  intros Hneg. rewrite raw_negative by assumption. destruct (marker_cache genes lists); discriminate.
+Qed.
+
+Lemma negative_raw_error genes d lists am :
+  has_negative d = true -> marker_cache genes lists = Ok am ->
+  prepare_query genes (DeclRaw d) lists = Err ENegative.
+Proof. intros Hneg Hm. rewrite raw_negative by assumption. rewrite Hm. reflexivity. Qed.
+
+Lemma normalise_after_downsample_rejected (m m' : cbg Z) sel :
+  downsample_genes m sel = Ok m' ->
+  to_log2cpm m' = Err (match c_norm m with Raw => EDownsampled | Log2CPM => ENotRaw end).
+Proof.
+  unfold downsample_genes. destruct (negb (znodup_b sel)); [discriminate|].
+  destruct (idx_array (c_genes m) sel); [|discriminate].
+  destruct (opt_all (map (take_cols l) (c_data m))); [|discriminate].
+  intros H; inversion H; subst. unfold Normalize.to_log2cpm. cbn [c_norm c_down].
+  destruct (c_norm m); reflexivity.
+Qed.
+
+End Prepare.
